@@ -239,7 +239,7 @@ func (r *Reporter) Finish(verifDir, tier string, seed int64, start time.Time, kn
 			dk[o.FullKey()] = true
 		}
 	}
-	var samples []any
+	samples := []any{}
 	perRule := map[string]int{}
 	for _, o := range r.Obs {
 		if o.Verdict == Info {
@@ -252,7 +252,7 @@ func (r *Reporter) Finish(verifDir, tier string, seed int64, start time.Time, kn
 			}
 		}
 	}
-	var infoList []any
+	infoList := []any{}
 	for _, o := range r.Obs {
 		if o.Verdict == Info && len(infoList) < 200 {
 			infoList = append(infoList, o)
